@@ -3,7 +3,8 @@ use std::cmp::Ordering;
 use std::collections::hash_map::DefaultHasher;
 use std::hash::{Hash, Hasher};
 
-use hickory_proto::rr::Name;
+use hickory_proto::rr::domain::Label;
+use hickory_proto::rr::{LowerName, Name, RecordType, RrKey};
 use hickory_proto::serialize::binary::{BinDecodable, BinDecoder, BinEncodable, BinEncoder, NameEncoding};
 
 use crate::common::*;
@@ -16,7 +17,7 @@ fn ord(o: Ordering) -> &'static str {
     }
 }
 
-fn h(n: &Name) -> u64 {
+fn h<T: Hash>(n: &T) -> u64 {
     let mut s = DefaultHasher::new();
     n.hash(&mut s);
     s.finish()
@@ -47,6 +48,14 @@ fn host_style(n: &Name) -> bool {
             && l[1..].iter().all(|c| c.is_ascii_alphanumeric() || *c == b'-' || *c == b'_' || *c == b'.')
             && (f != b'*' || l.len() == 1 || true)
     })
+}
+
+/// a caller-supplied `LabelCmp` for `Label::cmp_with_f`: plain octet order (what `CaseSensitive` is)
+struct OctetOrder;
+impl hickory_proto::rr::domain::LabelCmp for OctetOrder {
+    fn cmp_u8(l: u8, r: u8) -> Ordering {
+        l.cmp(&r)
+    }
 }
 
 /// an item shaped like a record: a (compressible) owner name followed by `pad` opaque octets
@@ -122,6 +131,240 @@ fn exec_inner(t: &[&str]) -> Out {
                 "hasheq" => b_(h(&a) == h(&b)),
                 _ => b_(a.zone_of(&b)),
             }
+        }
+        ["lcmp", a, b] | ["leq", a, b] | ["lhasheq", a, b] | ["lzone_of", a, b] => {
+            // the key form of names (zone map / catalog): LowerName must carry Name's identity and order
+            let (a, b) = (parse_name(a)?, parse_name(b)?);
+            let (la, lb) = (LowerName::new(&a), LowerName::from(b.clone()));
+            if la.cmp(&lb) != a.cmp(&b) {
+                fails.push("LowerName order differs from Name order".into());
+            }
+            if (la == lb) != (a == b) {
+                fails.push("LowerName identity differs from Name identity".into());
+            }
+            if la == lb && h(&la) != h(&lb) {
+                fails.push("equal LowerNames hash differently".into());
+            }
+            if (la.cmp(&lb) == Ordering::Equal) != (la == lb) {
+                fails.push("LowerName cmp == Equal disagrees with ==".into());
+            }
+            if la.zone_of(&lb) != a.zone_of(&b) {
+                fails.push("LowerName::zone_of differs from Name::zone_of".into());
+            }
+            if LowerName::from(Name::from(la.clone())) != la || !Name::from(&la).eq_case(&a.to_lowercase()) {
+                fails.push("LowerName <-> Name conversion changed the name".into());
+            }
+            if la.is_fqdn() != a.is_fqdn() || la.is_root() != a.is_root() || la.num_labels() != a.num_labels()
+                || la.len() != a.len() || la.is_wildcard() != a.is_wildcard() || la.is_empty() != a.is_empty()
+            {
+                fails.push("LowerName accessor differs from Name accessor".into());
+            }
+            if la.to_string() != a.to_lowercase().to_string() {
+                fails.push("LowerName Display differs from the lower-cased Name".into());
+            }
+            nontrivial = a.num_labels() > 0 && b.num_labels() > 0;
+            match t[0] {
+                "lcmp" => ord(la.cmp(&lb)).to_string(),
+                "leq" => b_(la == lb),
+                "lhasheq" => b_(h(&la) == h(&lb)),
+                _ => b_(la.zone_of(&lb)),
+            }
+        }
+        ["lbase_name", a] => {
+            let a = parse_name(a)?;
+            let r = LowerName::new(&a).base_name();
+            if !Name::from(&r).eq_case(&a.to_lowercase().base_name()) {
+                fails.push("LowerName::base_name differs from Name::base_name".into());
+            }
+            format!("ok {}", name_tok(&Name::from(r)))
+        }
+        ["linto_wildcard", a] => {
+            let a = parse_name(a)?;
+            let r = LowerName::new(&a).into_wildcard();
+            format!("ok {}", name_tok(&Name::from(r)))
+        }
+        ["lread", buf, pos] => {
+            let buf = unhex(buf)?;
+            let pos: usize = pos.parse().ok()?;
+            if pos > buf.len() || pos > 0xFFFF {
+                return None;
+            }
+            let d0 = BinDecoder::new(&buf);
+            let mut d = d0.clone(pos as u16);
+            let r = LowerName::read(&mut d);
+            let mut d2 = d0.clone(pos as u16);
+            let rn = Name::read(&mut d2);
+            match (&r, &rn) {
+                (Ok(l), Ok(n)) => {
+                    if *l != LowerName::new(n) || d.index() != d2.index() {
+                        fails.push("LowerName::read differs from lower-cased Name::read".into());
+                    }
+                }
+                (Err(_), Err(_)) => {}
+                _ => fails.push("LowerName::read and Name::read disagree on success".into()),
+            }
+            nontrivial = r.is_ok();
+            match &r {
+                Ok(n) => format!("ok {} {}", name_tok(&Name::from(n)), d.index()),
+                Err(_) => "err".into(),
+            }
+        }
+        ["rrkey_cmp", a, ta, b, tb] => {
+            let (a, b) = (parse_name(a)?, parse_name(b)?);
+            let (ta, tb): (u16, u16) = (ta.parse().ok()?, tb.parse().ok()?);
+            let ka = RrKey::new(LowerName::new(&a), RecordType::from(ta));
+            let kb = RrKey::new(LowerName::new(&b), RecordType::from(tb));
+            let c = ka.cmp(&kb);
+            if c != kb.cmp(&ka).reverse() {
+                fails.push("RrKey cmp(a,b) != reverse(cmp(b,a))".into());
+            }
+            if (c == Ordering::Equal) != (ka == kb) || (ka == kb) != (a == b && ta == tb) {
+                fails.push("RrKey identity is not (name up to ASCII case, type)".into());
+            }
+            if ka == kb && h(&ka) != h(&kb) {
+                fails.push("equal RrKeys hash differently".into());
+            }
+            if a != b && c != a.cmp(&b) {
+                fails.push("RrKey order is not name-major".into());
+            }
+            ord(c).to_string()
+        }
+        ["eq_ignore_root", a, b] | ["eq_ignore_root_case", a, b] | ["zone_of_case", a, b] => {
+            let (a, b) = (parse_name(a)?, parse_name(b)?);
+            if a == b && !a.eq_ignore_root(&b) {
+                fails.push("== names differ under eq_ignore_root".into());
+            }
+            if a.eq_ignore_root_case(&b) && !a.eq_ignore_root(&b) {
+                fails.push("eq_ignore_root_case without eq_ignore_root".into());
+            }
+            if a.zone_of_case(&b) && !a.zone_of(&b) {
+                fails.push("zone_of_case without zone_of".into());
+            }
+            nontrivial = a.num_labels() > 0 && b.num_labels() > 0;
+            match t[0] {
+                "eq_ignore_root" => b_(a.eq_ignore_root(&b)),
+                "eq_ignore_root_case" => b_(a.eq_ignore_root_case(&b)),
+                _ => b_(a.zone_of_case(&b)),
+            }
+        }
+        ["lbl_cmp", l, r] | ["lbl_cmpcase", l, r] | ["lbl_eq", l, r] | ["lbl_hasheq", l, r] => {
+            let (l, r) = (unhex(l)?, unhex(r)?);
+            let (ll, lr) = (Label::from_raw_bytes(&l).ok()?, Label::from_raw_bytes(&r).ok()?);
+            let c = ll.cmp(&lr);
+            if c != lr.cmp(&ll).reverse() {
+                fails.push("Label cmp(a,b) != reverse(cmp(b,a))".into());
+            }
+            if (c == Ordering::Equal) != (ll == lr) || (ll == lr) != (lower(&l) == lower(&r)) {
+                fails.push("Label identity is not 'equal up to ASCII case'".into());
+            }
+            if ll == lr && h(&ll) != h(&lr) {
+                fails.push("equal Labels hash differently".into());
+            }
+            if c != lower(&l).cmp(&lower(&r)) {
+                fails.push("Label order is not the order of the lower-cased octet strings".into());
+            }
+            let (na, nb) = (Name::root().append_label(&l[..]).ok()?, Name::root().append_label(&r[..]).ok()?);
+            if na.cmp(&nb) != c {
+                fails.push("one-label names order differently from their labels".into());
+            }
+            if ll.to_lowercase() != ll || ll.to_lowercase().as_bytes() != &lower(&l)[..] {
+                fails.push("Label::to_lowercase".into());
+            }
+            match t[0] {
+                "lbl_cmp" => ord(c).to_string(),
+                "lbl_cmpcase" => ord(ll.cmp_with_f::<OctetOrder>(&lr)).to_string(),
+                "lbl_eq" => b_(ll == lr),
+                _ => b_(h(&ll) == h(&lr)),
+            }
+        }
+        ["randomize", a] => {
+            // implementation-only: case randomisation (0x20) must keep identity, hash and length
+            let a = parse_name(a)?;
+            let mut r = a.clone();
+            r.randomize_label_case();
+            if r != a || h(&r) != h(&a) || r.len() != a.len() || r.is_fqdn() != a.is_fqdn() {
+                fails.push(format!("randomize_label_case changed the name: {}", name_tok(&r)));
+            }
+            if r.to_lowercase().cmp_case(&a.to_lowercase()) != Ordering::Equal {
+                fails.push("randomize_label_case changed octets other than letter case".into());
+            }
+            nontrivial = a.num_labels() > 0;
+            "~".to_string()
+        }
+        ["textrt", a, origin] => {
+            // implementation-only: the other text entry points (FromStr = from_str_relaxed, from_utf8,
+            // Name::parse with an origin, Display/to_utf8) on host-style names.  These go through IDNA
+            // (UTS 46), which lower-cases as a documented side effect ("When making names IDNA compatible,
+            // there is a side-effect of lowercasing the name"), so the name must come back equal as a
+            // Name (==, i.e. up to ASCII case) with the same fqdn flag; exact letter case is demanded only
+            // of from_ascii (op to_ascii)
+            let a = parse_name(a)?;
+            let origin = parse_name(origin)?;
+            nontrivial = host_style(&a) && a.num_labels() > 0;
+            if host_style(&a) {
+                let s = a.to_ascii();
+                match s.parse::<Name>() {
+                    Ok(back) => {
+                        if back != a || back.is_fqdn() != a.is_fqdn() {
+                            fails.push(format!("to_ascii -> FromStr changed the name: {s:?} -> {}", name_tok(&back)));
+                        }
+                    }
+                    Err(e) => fails.push(format!("host-style name does not re-parse with FromStr: {s:?}: {e}")),
+                }
+                let u = a.to_utf8();
+                if u != a.to_string() {
+                    fails.push("to_utf8 differs from Display".into());
+                }
+                match u.parse::<Name>() {
+                    Ok(back) => {
+                        if back != a || back.is_fqdn() != a.is_fqdn() {
+                            fails.push(format!("to_utf8 -> FromStr changed the name: {u:?} -> {}", name_tok(&back)));
+                        }
+                    }
+                    Err(e) => fails.push(format!("host-style name does not re-parse from to_utf8: {u:?}: {e}")),
+                }
+                if origin.is_fqdn() {
+                    let r = Name::parse(&s, Some(&origin));
+                    check_b(&mut fails, &r);
+                    let want = if a.is_fqdn() { Ok(a.clone()) } else { a.clone().append_domain(&origin) };
+                    match (&r, &want) {
+                        (Ok(got), Ok(w)) => {
+                            if got != w || !got.is_fqdn() {
+                                fails.push(format!("Name::parse with an origin: got {} want {}", name_tok(got), name_tok(w)));
+                            }
+                        }
+                        (Err(_), Err(_)) => {}
+                        (Ok(got), Err(_)) => fails.push(format!("Name::parse with an origin accepted an over-long name: {}", name_tok(got))),
+                        (Err(e), Ok(w)) => {
+                            // Name::parse goes through the IDNA label check, which refuses some host-style
+                            // labels that from_ascii takes (known C20 finding name-label-not-ldh): only a
+                            // letters-digits-hyphen name must parse
+                            let ldh = a.iter().all(|l| l.iter().all(|c| c.is_ascii_alphanumeric() || (*c == b'-')) && l[0] != b'-' && l[l.len() - 1] != b'-');
+                            if ldh {
+                                fails.push(format!("Name::parse with an origin refused {s:?} (want {}): {e}", name_tok(w)));
+                            }
+                        }
+                    }
+                }
+            }
+            "~".to_string()
+        }
+        ["from_ip", ip] => {
+            // implementation-only: reverse-lookup names
+            let ip: std::net::IpAddr = ip.parse().ok()?;
+            let n = Name::from(ip);
+            if !bounded(&n) || !n.is_fqdn() {
+                fails.push("Name::from(IpAddr) is not a bounded fqdn".into());
+            }
+            match n.parse_arpa_name() {
+                Ok(net) => {
+                    if net.addr() != ip || net.prefix_len() != if ip.is_ipv4() { 32 } else { 128 } {
+                        fails.push(format!("parse_arpa_name(Name::from({ip})) = {net}"));
+                    }
+                }
+                Err(e) => fails.push(format!("parse_arpa_name(Name::from({ip})): {e}")),
+            }
+            "~".to_string()
         }
         ["triple", a, b, c] => {
             // implementation-only: transitivity on a triple
@@ -786,6 +1029,63 @@ pub fn run(o: &Opts, rec: &mut Recorder) {
         let bb = if r.chance(2, 3) { relative_of(&mut r, &a) } else { gen_name(&mut r, small) };
         if i % 10 == 9 {
             let line = limit_case(&mut r);
+            exec(&line, rec);
+            continue;
+        }
+        if i % 10 == 4 {
+            // the key forms (LowerName, RrKey, Label), identity variants, the other text entry points
+            let line = match r.below(18) {
+                0 | 1 => format!("lcmp {} {}", name_tok(&a), name_tok(&bb)),
+                2 => format!("leq {} {}", name_tok(&a), name_tok(&bb)),
+                3 => format!("lhasheq {} {}", name_tok(&a), name_tok(&bb)),
+                4 => format!("lzone_of {} {}", name_tok(&bb), name_tok(&a)),
+                5 => format!("lbase_name {}", name_tok(&a)),
+                6 => format!("linto_wildcard {}", name_tok(&a)),
+                7 => {
+                    let (buf, pos) = gen_wire(&mut r);
+                    format!("lread {} {}", hex(&buf), pos)
+                }
+                8 | 9 => {
+                    let ts = [1u16, 2, 5, 6, 28, 46, 47, 255, 256, 65280, 65535, 0];
+                    let (ta, tb) = if r.chance(1, 2) { let t = *r.pick(&ts); (t, t) } else { (*r.pick(&ts), *r.pick(&ts)) };
+                    format!("rrkey_cmp {} {ta} {} {tb}", name_tok(&a), name_tok(&bb))
+                }
+                10 => format!("eq_ignore_root {} {}", name_tok(&a), name_tok(&bb)),
+                11 => format!("eq_ignore_root_case {} {}", name_tok(&a), name_tok(&bb)),
+                12 => format!("zone_of_case {} {}", name_tok(&bb), name_tok(&a)),
+                13 | 14 => {
+                    // two labels: unrelated, or related by case / a trailing octet / a NUL
+                    let l = gen_label(&mut r, small);
+                    let mut m = if r.chance(1, 3) { gen_label(&mut r, small) } else { l.clone() };
+                    match r.below(5) {
+                        0 => m = m.iter().map(|c| c.to_ascii_uppercase()).collect(),
+                        1 => if m.len() < 63 { m.push(*r.pick(&[0u8, b'a', 0xff])) },
+                        2 => { if m.len() > 1 { m.pop(); } }
+                        3 => { let i = r.below(m.len() as u64) as usize; m[i] ^= 0x20; }
+                        _ => {}
+                    }
+                    let op = *r.pick(&["lbl_cmp", "lbl_cmpcase", "lbl_eq", "lbl_hasheq"]);
+                    format!("{op} {} {}", hex(&l), hex(&m))
+                }
+                15 => format!("randomize {}", name_tok(&a)),
+                16 => {
+                    let hn = if r.chance(1, 4) { gen_host_name_long(&mut r) } else { gen_host_name(&mut r) };
+                    let mut origin = gen_host_name(&mut r);
+                    origin.set_fqdn(true);
+                    format!("textrt {} {}", name_tok(&hn), name_tok(&origin))
+                }
+                _ => {
+                    let ip = if r.chance(1, 2) {
+                        std::net::IpAddr::from([r.byte(), r.byte(), r.byte(), r.byte()])
+                    } else {
+                        let b = r.bytes(16);
+                        let mut x = [0u8; 16];
+                        x.copy_from_slice(&b);
+                        std::net::IpAddr::from(x)
+                    };
+                    format!("from_ip {ip}")
+                }
+            };
             exec(&line, rec);
             continue;
         }
